@@ -1,6 +1,7 @@
 package language
 
 import (
+	"reflect"
 	"sort"
 	"strings"
 
@@ -171,6 +172,14 @@ func (e *Environment) Apply(item map[string]*types.Item, aliases map[string]stri
 
 		if alias, ok := aliases[k]; ok {
 			k = alias
+		}
+
+		if current, ok := item[k]; ok && current != nil {
+			// an attribute whose value did not change keeps its stored representation, so that
+			// an update never alters (re-serialises, rounds) values it does not target
+			if currentObj, err := MapToObject(current); err == nil && reflect.DeepEqual(currentObj, v) {
+				continue
+			}
 		}
 
 		vItem := v.ToDynamoDB()
